@@ -507,13 +507,22 @@ def _inline_variants(ctx: Ctx, v: View, name: str, base: int, depth: int) -> Opt
     return uniq
 
 
-def _list_separator(v: View, name: str) -> str:
+def _list_separator(v: View, name: str, seen: Optional[Set[str]] = None) -> str:
+    seen = seen if seen is not None else set()
+    seen.add(name)
     for e in v.rules_of(name):
         for sym, is_term, filt in e.symbols:
             if is_term and filt and sym in v.terminals:
                 lx = lexemes(v.terminals[sym])
                 if lx and len(lx) == 1:
                     return sorted(lx)[0]
+    # `x (SEP x)*`: the separator stands in the generated repetition helper
+    for e in v.rules_of(name):
+        for sym, is_term, filt in e.symbols:
+            if not is_term and sym.startswith('__') and sym not in seen:
+                sep = _list_separator(v, sym, seen)
+                if sep:
+                    return sep
     return ''
 
 
@@ -579,6 +588,11 @@ def _match(seq: List[Tuple], variant: List[Tuple], fmap: Dict[int, str], units: 
             if a[0] == 'j' and want is not None and a[1] == want:
                 i += 1
                 j += 1
+                continue
+            # `x (SEP x)+`: the printed join covers the leading element as well
+            if a[0] == 'j' and j + 1 < len(variant) and variant[j + 1][0] == 'l' and variant[j + 1][2] and variant[j + 1][2] in a[2]:
+                i += 1
+                j += 2
                 continue
             if a[0] == 's' and want is not None and a[1] != want:
                 return f'prints field {a[1]} where the grammar rule feeds {want} (child {b[1]})'
